@@ -73,5 +73,28 @@ func ruleB7(p *Prog) *RuleResult {
 			}
 		}
 	}
+	// ... nor is the reader it was given asked for another way in (io.Seeker, io.ReaderAt, io.WriterTo ...):
+	// a decoder that steps over bytes with Seek works on regular files and fails on pipes, and whatever
+	// wraps the reader (a hash, a counter, a limit) is bypassed
+	for _, f := range fns {
+		if f.Blocks == nil || strings.HasPrefix(f.Name(), "smat") {
+			continue
+		}
+		n := 0
+		for _, b := range f.Blocks {
+			for _, ins := range b.Instrs {
+				ta, ok := ins.(*ssa.TypeAssert)
+				if !ok || typeShort(ta.X.Type()) != "io.Reader" {
+					continue
+				}
+				at := typeShort(ta.AssertedType)
+				switch at {
+				case "io.Seeker", "io.ReadSeeker", "io.ReaderAt", "io.WriterTo", "io.ByteScanner", "io.RuneScanner":
+					n++
+					res.bad(fmt.Sprintf("%s|reader asserted to %s#%d", fname(f), at, n), p.ipos(ta), "the io.Reader handed to the decoder is asked for "+at+": bytes are then skipped or taken without passing through Read (fails on pipes, bypasses wrapping readers, and the caller's position no longer matches the count returned)")
+				}
+			}
+		}
+	}
 	return res
 }
